@@ -25,10 +25,12 @@ pub fn alg_from(s: &str) -> Algorithm {
     }
 }
 
-pub const STACKS: [&str; 8] = [
+pub const STACKS: [&str; 10] = [
     "none",
     "mutref",
     "nofinish",
+    "replace_nofinish",
+    "replace_nofinish_nr",
     "replace",
     "replace_nr",
     "compact",
@@ -107,6 +109,17 @@ where
         }
         "replace" => {
             let mut d = Replace::new(Rec::new(c.fail_at));
+            run_alg(c, &mut d, old, new)
+        }
+        "replace_nofinish" => {
+            // Replace feeding the finish-suppressing wrapper: it must forward replace as replace
+            let mut r = Rec::new(c.fail_at);
+            let mut d = Replace::new(NoFinishHook::new(&mut r));
+            run_alg(c, &mut d, old, new)
+        }
+        "replace_nofinish_nr" => {
+            let mut r = RecNoReplace(Rec::new(c.fail_at));
+            let mut d = Replace::new(NoFinishHook::new(&mut r));
             run_alg(c, &mut d, old, new)
         }
         "replace_nr" => {
@@ -251,6 +264,121 @@ fn base_pairs(a: &Args, rng: &mut Rng) -> Vec<Pair> {
         pairs.push(gen::random_pair(rng, maxlen));
     }
     pairs
+}
+
+/// Large, structured inputs (a few hundred to a few thousand items) as hook traces: long vs short
+/// unrelated sequences, crossing common blocks separated by junk (moved code), near-identical,
+/// small-alphabet random, one side tiny; whole slices and sub-ranges.  The start record carries
+/// "big": TRUE so that the trace specification skips oracles that are quadratic in the size
+/// beyond fixed limits.
+pub fn big_cases(rng: &mut Rng, thorough: bool) -> Vec<(&'static str, Vec<u32>, Vec<u32>)> {
+    let mut v: Vec<(&'static str, Vec<u32>, Vec<u32>)> = vec![];
+    let rounds = if thorough { 6 } else { 1 };
+    for _ in 0..rounds {
+        let junk = |_rng: &mut Rng, n: usize, base: u32| -> Vec<u32> { (0..n).map(|i| base + i as u32).collect() };
+        // unrelated, long vs short and short vs long
+        let n = rng.range(2200, 3000);
+        let m = rng.range(200, 400);
+        v.push(("long_vs_short", junk(rng, n, 0), junk(rng, m, 100000)));
+        v.push(("short_vs_long", junk(rng, m, 0), junk(rng, n, 100000)));
+        // random over a small alphabet, long vs short
+        let a: Vec<u32> = (0..n).map(|_| rng.below(4) as u32).collect();
+        let b: Vec<u32> = (0..m).map(|_| 10 + rng.below(4) as u32).collect();
+        v.push(("long_vs_short_small_alpha", a, b));
+        // crossing blocks: old = S R JA, new = R JB S   (and the mirror), |S| > |R| >= 20
+        let ls = rng.range(200, 320);
+        let lr = rng.range(20, 40);
+        let lj = rng.range(280, 320);
+        let s_: Vec<u32> = junk(rng, ls, 1000);
+        let r_: Vec<u32> = junk(rng, lr, 5000);
+        let ja: Vec<u32> = junk(rng, lj, 10000);
+        let jb: Vec<u32> = junk(rng, lj, 20000);
+        let cat = |xs: &[&Vec<u32>]| -> Vec<u32> { xs.iter().flat_map(|x| x.iter().cloned()).collect() };
+        v.push(("crossing_blocks", cat(&[&s_, &r_, &ja]), cat(&[&r_, &jb, &s_])));
+        v.push(("crossing_blocks_mirror", cat(&[&ja, &r_, &s_]), cat(&[&s_, &jb, &r_])));
+        // several common blocks in permuted order between junk
+        let blocks: Vec<Vec<u32>> = (0..5)
+            .map(|i| {
+                let l = rng.range(20, 60);
+                junk(rng, l, 30000 + 1000 * i)
+            })
+            .collect();
+        let mut o = vec![];
+        let mut nn = vec![];
+        for (i, b) in blocks.iter().enumerate() {
+            let l = rng.range(40, 90);
+            o.extend(junk(rng, l, 40000 + 1000 * i as u32));
+            o.extend(b.iter().cloned());
+        }
+        for i in [2usize, 0, 4, 1, 3] {
+            let l = rng.range(40, 90);
+            nn.extend(junk(rng, l, 50000 + 1000 * i as u32));
+            nn.extend(blocks[i].iter().cloned());
+        }
+        v.push(("permuted_blocks", o, nn));
+        // near identical, long
+        let a: Vec<u32> = (0..n as u32).collect();
+        let e = rng.range(1, 6);
+        let b = gen::mutate(rng, &a, e, n as u32 + 7);
+        v.push(("near_identical", a, b));
+        // one side tiny
+        let a: Vec<u32> = (0..n as u32).collect();
+        v.push(("vs_tiny", a.clone(), vec![n as u32 / 2]));
+        v.push(("tiny_vs", vec![n as u32 / 3, 7], a));
+    }
+    v
+}
+
+pub fn drive_big(a: &Args, out: &mut Out) {
+    let mut rng = Rng::new(a.num("seed", 1));
+    for (fam, x, y) in big_cases(&mut rng, a.thorough()) {
+        for alg in ALGS {
+            if alg == Algorithm::Lcs && x.len() * y.len() > 200_000 {
+                continue; // the LCS table is quadratic
+            }
+            let c = HCase::simple(alg, &x, &y);
+            let case = out.next_case();
+            let mut st = start_json(&c, case);
+            st["big"] = json!(true);
+            st["family"] = json!(fam);
+            out.emit(&st);
+            out.flush();
+            let r = exec(&c);
+            for e in &r.events {
+                out.emit(e);
+            }
+            match &r.ret {
+                None => out.emit(&json!({"ev":"panic","case":case})),
+                Some(Ok(())) => out.emit(&json!({"ev":"ret","case":case,"ok":true,"err":-1,"cmps":r.cmps,"probes":0,"xcmps":-1})),
+                Some(Err(k)) => out.emit(&json!({"ev":"ret","case":case,"ok":false,"err":k,"cmps":r.cmps,"probes":0,"xcmps":-1})),
+            }
+            // a sub-range of padded sequences under the panicking window
+            if x.len() + y.len() < 4000 {
+                let (po, os, oe, pn, ns, ne) = gen::pad(&mut rng, &x, &y, 3);
+                let mut c2 = HCase::simple(alg, &po, &pn);
+                c2.os = os;
+                c2.oe = oe;
+                c2.ns = ns;
+                c2.ne = ne;
+                c2.index = "window";
+                let case = out.next_case();
+                let mut st = start_json(&c2, case);
+                st["big"] = json!(true);
+                st["family"] = json!(fam);
+                out.emit(&st);
+                out.flush();
+                let r = exec(&c2);
+                for e in &r.events {
+                    out.emit(e);
+                }
+                match &r.ret {
+                    None => out.emit(&json!({"ev":"panic","case":case})),
+                    Some(Ok(())) => out.emit(&json!({"ev":"ret","case":case,"ok":true,"err":-1,"cmps":r.cmps,"probes":0,"xcmps":-1})),
+                    Some(Err(k)) => out.emit(&json!({"ev":"ret","case":case,"ok":false,"err":k,"cmps":r.cmps,"probes":0,"xcmps":-1})),
+                }
+            }
+        }
+    }
 }
 
 /// C01: no faults, no adapters; whole sequences and sub-ranges; both index kinds;
